@@ -193,7 +193,13 @@ func vfMeshLat() uint16 {
 	return 7
 }
 
+var vfMeshLabelN int
+
 func vfMeshLabel() m.SwitchLabel {
+	vfMeshLabelN++
+	if vfMeshLabelN > vf.Param("SYM") {
+		return m.SwitchLabel(10 + vfMeshLabelN) // concrete 1-byte label (distinct)
+	}
 	l := m.SwitchLabel(vf.U16())
 	vf.Assume(l >= 1 && l <= m.MaxPrivateSwitchLabel)
 	return l
